@@ -173,6 +173,8 @@ def run_driver(opsfile, outfile):
 
 
 def compare(wd):
+    try: keys = json.load(open(os.path.join(wd, "meta.json"))).get("keys", {})
+    except (OSError, ValueError): keys = {}
     ops = open(os.path.join(wd, "ops.txt")).read().splitlines()
     imp = open(os.path.join(wd, "impl.txt")).read().splitlines()
     mod = open(os.path.join(wd, "model.txt")).read().splitlines()
@@ -187,7 +189,7 @@ def compare(wd):
             if mm != a and len(b_mis) < 50: b_mis.append(dict(index=i, op=o, impl=a, model=mm))
         if ss != "-":
             n_spec += 1
-            if ss != a and len(c_mis) < 50: c_mis.append(dict(index=i, what="impl vs spec: " + o.split(" ")[0], input=o, impl=a, expected=ss))
+            if ss != a and len(c_mis) < 50: c_mis.append(dict(index=i, what="impl vs spec: " + o.split(" ")[0], input=o, impl=a, expected=ss, key=keys.get(str(i), "")))
     return b_mis, c_mis, n_model, n_spec
 
 
@@ -202,6 +204,7 @@ def match_known(prop, failure, known):
         if k.get("what") and k["what"] != failure.get("what"): continue
         if k.get("what_regex") and not re.search(k["what_regex"], failure.get("what", "")): continue
         if k.get("input_regex") and not re.search(k["input_regex"], failure.get("input", "")): continue
+        if k.get("key_regex") and not re.search(k["key_regex"], failure.get("key", "")): continue
         return k
     return None
 
